@@ -376,6 +376,15 @@ def call_str_method(it, name, s, args, kwargs, node):
                 it.raise_builtin('ValueError', 'wd:format[%s]' % s[:30])
         if isinstance(s, str):
             _check_format_arity(it, s, args, kwargs)
+            # a template made of literal text and plain '{}' fields, filled with strings / integers: the concatenation of
+            # the pieces with str() of each argument (str of an unknown integer is one unknown string per integer term)
+            if not kwargs and '{{' not in s and '}}' not in s and s.count('{}') == len(args) == s.count('{') == s.count('}') \
+                    and all(is_str(a) or is_int(a) and not isinstance(a, bool) for a in args):
+                pieces = s.split('{}')
+                out = pieces[0]
+                for a, lit in zip(args, pieces[1:]):
+                    out = V.sconcat(V.sconcat(out, a if is_str(a) else int_str(it, a)), lit)
+                return out
         return it.fresh_str('format')
     # remaining methods: concrete only, else an unconstrained fresh string/list
     if isinstance(s, str) and all(_concrete(a) or isinstance(a, tuple) for a in args):
@@ -791,6 +800,17 @@ def bi_callable(it, args, kwargs):
     return False
 
 
+def int_str(it, v):
+    """str(v) for an integer: concrete, or one unknown string per integer term (str is a function)"""
+    if isinstance(v, int):
+        return str(v)
+    memo = it.ctx.ghost.setdefault('int_str', {})
+    k = str(V.simp(V.zint(v)))
+    if k not in memo:
+        memo[k] = it.fresh_str('str(int)')
+    return memo[k]
+
+
 def bi_str(it, args, kwargs):
     if not args:
         return ''
@@ -801,6 +821,8 @@ def bi_str(it, args, kwargs):
         return str(v)
     if isinstance(v, int):
         return str(v)
+    if is_int(v) and not is_boolv(v):
+        return int_str(it, v)
     if v is None:
         return 'None'
     if isinstance(v, Obj):
